@@ -636,6 +636,9 @@ class FixedKeyDictNode(MappingNode, SequenceNode[Dict[LeafNode, KeyValuePairNode
         for kvp in self._children.values():
             yield kvp.key, kvp.value
 
+    def copy_from(self: C, children: Iterable[KeyValuePairNode]) -> C:
+        return self.__class__({kvp.key: kvp for kvp in children})
+
     def editable_dict(self) -> Dict[str, Any]:
         ret = dict(self.__dict__)
         ret["_children"] = {e.key: e for e in (kvp.make_edited() for kvp in self)}
